@@ -328,6 +328,19 @@ Proof.
   apply (compute_key_rfc hash (Z.to_nat hlz) Hlen ltac:(lia) K kb H sid X n i HK Hn). lia.
 Qed.
 
+(* the digest length _compute_key ends up with for each kex class is the one the kex method specifies *)
+Lemma kex_hashes_match_spec_ok : kex_hashes_match_spec = true.
+Proof. vm_compute. reflexivity. Qed.
+
+Theorem kex_hash_spec name declared :
+  In (name, declared) gen_kex_hashes -> spec_kex_hash_len name = Some (kex_hash_len declared).
+Proof.
+  intros Hin. pose proof kex_hashes_match_spec_ok as P. unfold kex_hashes_match_spec in P.
+  rewrite forallb_forall in P. specialize (P _ Hin). cbn [fst snd] in P.
+  destruct (spec_kex_hash_len name) as [h|]; [|discriminate P].
+  apply Z.eqb_eq in P. now subst h.
+Qed.
+
 (* ---- non-vacuity material ---------------------------------------------------------------------- *)
 Lemma toy_hash_len hl m : length (toy_hash hl m) = hl.
 Proof.
